@@ -55,18 +55,31 @@ Record cstate := mkC {
   c_q : list Z;                        (* the abstract FIFO (front = head) *)
   c_idler : Z; c_pending : Z; c_swait : Z; c_spend : Z;
   c_qsem : Z; c_ssem : Z;              (* token counts of queue_sem / send_sem *)
+  (* GHOST (never read by the transitions): c_epoch counts the times the queue went from empty to non-empty,
+     c_tep p = epoch of p's last successful push; c_fepoch counts the times it went from full to non-full,
+     c_tfep p = that epoch at p's last successful pop *)
+  c_epoch : Z; c_tep : nat -> Z; c_fepoch : Z; c_tfep : nat -> Z;
   c_thr : nat -> thr cpc }.
 
-Definition c_set_thr st p th := mkC (c_q st) (c_idler st) (c_pending st) (c_swait st) (c_spend st) (c_qsem st) (c_ssem st) (upd (c_thr st) p th).
+Definition c_set_thr st p th := mkC (c_q st) (c_idler st) (c_pending st) (c_swait st) (c_spend st) (c_qsem st) (c_ssem st) (c_epoch st) (c_tep st) (c_fepoch st) (c_tfep st) (upd (c_thr st) p th).
 Definition c_goto st p pc := c_set_thr st p (thr_goto (c_thr st p) pc).
 Definition c_finish st p r := c_set_thr st p (thr_finish chan_entry (c_thr st p) r).
-Definition c_with_q st q := mkC q (c_idler st) (c_pending st) (c_swait st) (c_spend st) (c_qsem st) (c_ssem st) (c_thr st).
-Definition c_with_idler st x := mkC (c_q st) x (c_pending st) (c_swait st) (c_spend st) (c_qsem st) (c_ssem st) (c_thr st).
-Definition c_with_pending st x := mkC (c_q st) (c_idler st) x (c_swait st) (c_spend st) (c_qsem st) (c_ssem st) (c_thr st).
-Definition c_with_swait st x := mkC (c_q st) (c_idler st) (c_pending st) x (c_spend st) (c_qsem st) (c_ssem st) (c_thr st).
-Definition c_with_spend st x := mkC (c_q st) (c_idler st) (c_pending st) (c_swait st) x (c_qsem st) (c_ssem st) (c_thr st).
-Definition c_with_qsem st x := mkC (c_q st) (c_idler st) (c_pending st) (c_swait st) (c_spend st) x (c_ssem st) (c_thr st).
-Definition c_with_ssem st x := mkC (c_q st) (c_idler st) (c_pending st) (c_swait st) (c_spend st) (c_qsem st) x (c_thr st).
+Definition c_with_q st q := mkC q (c_idler st) (c_pending st) (c_swait st) (c_spend st) (c_qsem st) (c_ssem st) (c_epoch st) (c_tep st) (c_fepoch st) (c_tfep st) (c_thr st).
+(* successful push of v by p / successful pop by p, with the ghost epochs *)
+Definition c_push st (p : nat) (v : Z) :=
+  let e := match c_q st with [] => c_epoch st + 1 | _ => c_epoch st end in
+  mkC (c_q st ++ [v]) (c_idler st) (c_pending st) (c_swait st) (c_spend st) (c_qsem st) (c_ssem st)
+      e (upd (c_tep st) p e) (c_fepoch st) (c_tfep st) (c_thr st).
+Definition c_pop st (cap : Z) (p : nat) (r : list Z) :=
+  let e := if cap <=? Z.of_nat (length (c_q st)) then c_fepoch st + 1 else c_fepoch st in
+  mkC r (c_idler st) (c_pending st) (c_swait st) (c_spend st) (c_qsem st) (c_ssem st)
+      (c_epoch st) (c_tep st) e (upd (c_tfep st) p e) (c_thr st).
+Definition c_with_idler st x := mkC (c_q st) x (c_pending st) (c_swait st) (c_spend st) (c_qsem st) (c_ssem st) (c_epoch st) (c_tep st) (c_fepoch st) (c_tfep st) (c_thr st).
+Definition c_with_pending st x := mkC (c_q st) (c_idler st) x (c_swait st) (c_spend st) (c_qsem st) (c_ssem st) (c_epoch st) (c_tep st) (c_fepoch st) (c_tfep st) (c_thr st).
+Definition c_with_swait st x := mkC (c_q st) (c_idler st) (c_pending st) x (c_spend st) (c_qsem st) (c_ssem st) (c_epoch st) (c_tep st) (c_fepoch st) (c_tfep st) (c_thr st).
+Definition c_with_spend st x := mkC (c_q st) (c_idler st) (c_pending st) (c_swait st) x (c_qsem st) (c_ssem st) (c_epoch st) (c_tep st) (c_fepoch st) (c_tfep st) (c_thr st).
+Definition c_with_qsem st x := mkC (c_q st) (c_idler st) (c_pending st) (c_swait st) (c_spend st) x (c_ssem st) (c_epoch st) (c_tep st) (c_fepoch st) (c_tfep st) (c_thr st).
+Definition c_with_ssem st x := mkC (c_q st) (c_idler st) (c_pending st) (c_swait st) (c_spend st) (c_qsem st) x (c_epoch st) (c_tep st) (c_fepoch st) (c_tfep st) (c_thr st).
 
 (* user points *)
 Definition U_SEMWAIT : Z := 0.   Definition U_SEMSIG : Z := 1.   Definition U_YIELD : Z := 2.
@@ -85,11 +98,11 @@ Definition chan_step (cap Y : Z) (st : cstate) (p : nat) (flavor : nat) : cstate
     match pc with
     | CSPush1 v =>
         if full then (c_goto st p (CSSwInc v), ob_user U_QPUSH 1 0 0)
-        else (c_goto (c_with_q st (c_q st ++ [v])) p (CSLdIdler v), ob_user U_QPUSH 1 1 0)
+        else (c_goto (c_push st p v) p (CSLdIdler v), ob_user U_QPUSH 1 1 0)
     | CSSwInc v => (c_goto (c_with_swait st (wrap (c_swait st + 1))) p (CSPush2 v Y), ob_fa A_SWAIT (-1) 1 (c_swait st))
     | CSPush2 v yt =>
         if full then (c_goto st p (if 0 <? yt then CSYield v (yt - 1) else CSSemWait v), ob_user U_QPUSH 1 0 0)
-        else (c_goto (c_with_q st (c_q st ++ [v])) p (CSSwDec v), ob_user U_QPUSH 1 1 0)
+        else (c_goto (c_push st p v) p (CSSwDec v), ob_user U_QPUSH 1 1 0)
     | CSYield v yt => (c_goto st p (CSPush2 v yt), ob_user U_YIELD 0 0 0)
     | CSSemWait v =>
         if 0 <? c_ssem st then (c_goto (c_with_ssem st (c_ssem st - 1)) p (CSSpDec v), ob_user U_SSEMWAIT 1 1 0)
@@ -114,14 +127,14 @@ Definition chan_step (cap Y : Z) (st : cstate) (p : nat) (flavor : nat) : cstate
     | CRPop1 =>
         match c_q st with
         | [] => (c_goto st p CRYield0, ob_user U_QPOP 1 0 0)
-        | v :: r => (c_goto (c_with_q st r) p (CNLdSw v false), ob_user U_QPOP 2 1 v)
+        | v :: r => (c_goto (c_pop st cap p r) p (CNLdSw v false), ob_user U_QPOP 2 1 v)
         end
     | CRYield0 => (c_goto st p CRIdInc, ob_user U_YIELD 0 0 0)
     | CRIdInc => (c_goto (c_with_idler st (wrap (c_idler st + 1))) p (CRPop2 Y), ob_fa A_IDLER (-1) 1 (c_idler st))
     | CRPop2 yt =>
         match c_q st with
         | [] => (c_goto st p (if 0 <? yt then CRYield (yt - 1) else CRSemWait), ob_user U_QPOP 1 0 0)
-        | v :: r => (c_goto (c_with_q st r) p (CNLdSw v true), ob_user U_QPOP 2 1 v)
+        | v :: r => (c_goto (c_pop st cap p r) p (CNLdSw v true), ob_user U_QPOP 2 1 v)
         end
     | CRYield yt => (c_goto st p (CRPop2 yt), ob_user U_YIELD 0 0 0)
     | CRSemWait =>
@@ -158,7 +171,7 @@ Definition chan_fin (st : cstate) (p : nat) : bool :=
   match t_pc (c_thr st p) with None => true | Some _ => false end.
 
 Definition chan_init (scripts : list (list op)) : cstate :=
-  mkC [] 0 0 0 0 0 0 (fun p => thr_init chan_entry (nth p scripts [])).
+  mkC [] 0 0 0 0 0 0 0 (fun _ => 0) 0 (fun _ => 0) (fun p => thr_init chan_entry (nth p scripts [])).
 
 Definition chan_run (cap Y : Z) (bound : nat) (sched : list nat) (scripts : list (list op)) :=
   e3_run (chan_e3step cap Y) chan_fin (length scripts) bound sched (pred (length scripts)) (chan_init scripts) [].
